@@ -2,7 +2,7 @@
   The statement forms of templates/validation.go.tmpl that the hand-written model of the generated function ASSUMES
   (Gen/Exec.lean `runBlocks`, Proofs/CtxAny.lean `runG`, Props/C16 `Stmt`, Props/C19 allocation sites), as the flat token
   list `rulefacts` extracts from the template on every run (`Facts.tmplTokens`: text with white space collapsed, actions
-  and control structure verbatim). Proofs/Template.lean proves the two lists equal, so an edit of the template — a
+  and control structure verbatim, Go line comments dropped). Proofs/Template.lean proves the two lists equal, so an edit of the template — a
   poll removed or moved behind the checks, `return context.Cause(ctx)`, `err := &Sentinel`, a wrapper that no longer
   delegates — breaks a proof obligation before any output is generated. Each segment names the model clause it carries.
 -/
@@ -10,11 +10,10 @@ namespace Gen.Tmpl
 
 /-- file header, import block, interface assertion, `ErrNil<T>` and the sentinel declarations (C08's business) -/
 def header : List String := [
-  "// Code generated by govalid; DO NOT EDIT. package", "{{.PackageName}}", "import (", "{{if .Metadata}}",
+  "package", "{{.PackageName}}", "import (", "{{if .Metadata}}",
   "\"context\" \"errors\" \"github.com/sivchari/govalid\" govaliderrors \"github.com/sivchari/govalid/validation/errors\"",
   "{{range $pkg, $_ := .ImportPackages}}", "\"", "{{$pkg}}", "\"", "{{end}}", "{{end}}",
-  ") var ( _ govalid.Validator = (*", "{{.TypeName}}", ")(nil) // ErrNil", "{{.TypeName}}", "is returned when the",
-  "{{.TypeName}}", "is nil. ErrNil", "{{.TypeName}}", "= errors.New(\"input", "{{.TypeName}}", "is nil\")",
+  ") var ( _ govalid.Validator = (*", "{{.TypeName}}", ")(nil)", "ErrNil", "{{.TypeName}}", "= errors.New(\"input", "{{.TypeName}}", "is nil\")",
   "{{range .Metadata}}", "{{range .Validators}}", "{{if ne .Validate \"\"}}", "{{.Err}}", "{{end}}", "{{end}}", "{{end}}"]
 
 /-- `Validate<T>Context`: nil guard FIRST (`exec … none = .nilRecv`, no poll before it), then the local `errs` -/
